@@ -497,6 +497,14 @@ static Type infer_array_element_type(ASTNode *array_expr, Environment *env) {
         }
     }
 
+    /* Result of a user function declared -> array<T> */
+    if (array_expr->type == AST_CALL && array_expr->as.call.name) {
+        Function *callee = env_get_function(env, array_expr->as.call.name);
+        if (callee && callee->return_type == TYPE_ARRAY && callee->return_element_type != TYPE_UNKNOWN) {
+            return callee->return_element_type;
+        }
+    }
+
     return TYPE_UNKNOWN;
 }
 
@@ -1865,6 +1873,11 @@ static void build_expr(WorkList *list, ASTNode *expr, Environment *env) {
                 } else {
                     /* Try to infer from value type */
                     elem_type = check_expression(value_arg, env);
+                    /* (array_push [] v): the empty literal would otherwise be created as array<int> */
+                    if (array_arg->type == AST_ARRAY_LITERAL && array_arg->as.array_literal.element_count == 0 &&
+                        array_arg->as.array_literal.element_type == TYPE_UNKNOWN && elem_type != TYPE_UNKNOWN) {
+                        array_arg->as.array_literal.element_type = elem_type;
+                    }
                 }
                 
                 /* If we still don't have struct name, try to infer from value argument */
